@@ -241,6 +241,70 @@ class _ElseFlat(ast.NodeTransformer):
         return node
 
 
+class _CmpFlip(ast.NodeTransformer):
+    """`a < b` -> `b > a`, `a == b` -> `b == a` ... for single-operator ordering / equality comparisons."""
+
+    MIRROR = {ast.Eq: ast.Eq, ast.NotEq: ast.NotEq, ast.Lt: ast.Gt, ast.Gt: ast.Lt, ast.LtE: ast.GtE, ast.GtE: ast.LtE}
+
+    def visit_Compare(self, node):
+        self.generic_visit(node)
+        if len(node.ops) == 1 and type(node.ops[0]) in self.MIRROR and not _has(node, (ast.NamedExpr, ast.Await, ast.Yield, ast.YieldFrom)) \
+                and not (_has(node.left, ast.Call) and _has(node.comparators[0], ast.Call)):
+            return ast.Compare(left=node.comparators[0], ops=[self.MIRROR[type(node.ops[0])]()], comparators=[node.left])
+        return node
+
+
+class _AugAssign(ast.NodeTransformer):
+    """`x += e` -> `x = x + e` for names and plain attribute chains (numbers / immutable values in this package)."""
+
+    def visit_AugAssign(self, node):
+        import copy
+
+        t = node.target
+        base = t
+        while isinstance(base, ast.Attribute):
+            base = base.value
+        if not isinstance(base, ast.Name) or not isinstance(node.op, (ast.Add, ast.Sub, ast.Mult)):
+            return node
+        load = copy.deepcopy(t)
+        for x in ast.walk(load):
+            if hasattr(x, "ctx"):
+                x.ctx = ast.Load()
+        return ast.Assign(targets=[t], value=ast.BinOp(left=load, op=node.op, right=node.value))
+
+
+class _Recv(ast.NodeTransformer):
+    """Alias an attribute of self that receives a statement-level method call: `self.a.m(x)` -> `t = self.a; t.m(x)`
+    (also `v = self.a.m(x)`), the `transport = self.transport` idiom."""
+
+    def __init__(self, seed: int):
+        self.n = 0
+        self.seed = seed
+
+    def _split(self, st):
+        if isinstance(st, (ast.Expr, ast.Assign)) and isinstance(st.value, ast.Call) and isinstance(st.value.func, ast.Attribute):
+            recv = st.value.func.value
+            if isinstance(recv, ast.Attribute) and isinstance(recv.value, ast.Name) and recv.value.id == "self" and not _has(st, (ast.Yield, ast.YieldFrom, ast.NamedExpr)):
+                self.n += 1
+                t = f"_recv{self.seed}_{self.n}"
+                st.value.func.value = ast.Name(id=t, ctx=ast.Load())
+                return [ast.Assign(targets=[ast.Name(id=t, ctx=ast.Store())], value=recv), st]
+        return [st]
+
+    def generic_visit(self, node):
+        super().generic_visit(node)
+        if isinstance(node, (ast.ClassDef, ast.Module)):
+            return node
+        for f in ("body", "orelse", "finalbody"):
+            b = getattr(node, f, None)
+            if isinstance(b, list) and b and isinstance(b[0], ast.stmt):
+                out = []
+                for st in b:
+                    out.extend(self._split(st))
+                setattr(node, f, out)
+        return node
+
+
 def _twin_transform(root: str, files: list[str], kind: str, seed: int) -> None:
     for rel in files:
         p = os.path.join(root, rel)
@@ -258,6 +322,12 @@ def _twin_transform(root: str, files: list[str], kind: str, seed: int) -> None:
             tree = _IfSwap().visit(tree)
         elif kind == "elseflat":
             tree = _ElseFlat().visit(tree)
+        elif kind == "cmpflip":
+            tree = _CmpFlip().visit(tree)
+        elif kind == "augassign":
+            tree = _AugAssign().visit(tree)
+        elif kind == "recv":
+            tree = _Recv(seed).visit(tree)
         elif kind == "logging":
             tree = _AddLogging().visit(tree)
             # make sure `logging` is importable in the module (analysis only needs the name to resolve)
@@ -301,7 +371,7 @@ def _run_variant(args):
         shutil.rmtree(d, ignore_errors=True)
 
 
-TWIN_KINDS = ("unparse", "rename", "logging", "temps", "ifswap", "elseflat")
+TWIN_KINDS = ("unparse", "rename", "logging", "temps", "ifswap", "elseflat", "augassign", "recv")
 
 
 def _package_files(root: str) -> list[str]:
